@@ -3,11 +3,11 @@
 HOOK_COMMITS = ["c4c2ecd", "2f67f21", "e5d0013"]
 
 ENGINES = [
-    {"name": "tlc", "path": "/verif/lib/vlib.py", "serves_properties": ["C01", "C02", "C03", "C12"],
+    {"name": "tlc", "path": "/verif/lib/vlib.py", "serves_properties": ["C01", "C02", "C03", "C06", "C12"],
      "kind_free_text": "TLC runner (exhaustive, simulation), TLA+ value parser, evidence writer"},
-    {"name": "psrun", "path": "/verif/lib/psprops.py", "serves_properties": ["C01", "C02", "C03"],
+    {"name": "psrun", "path": "/verif/lib/psprops.py", "serves_properties": ["C01", "C02", "C03", "C06"],
      "kind_free_text": "abstract programs (catalogue + seeded generator) -> MroSem table by TLC -> real pipestances under forced schedules -> PsTrace monitors by TLC"},
-    {"name": "vh", "path": "/verif/harness", "serves_properties": ["C01", "C02", "C03", "C12"],
+    {"name": "vh", "path": "/verif/harness", "serves_properties": ["C01", "C02", "C03", "C06", "C12"],
      "kind_free_text": "Go conformance harness built with -tags verif against /repo's working tree"},
 ]
 
@@ -24,6 +24,10 @@ CHECKS = [
      "technique": "dependency relation from TLA+ semantics (MroSem provenance); slow-producer and random schedules forced on the real run loop; TLC trace monitors",
      "text": "Deps (per job: the stage instances whose outputs flow into its arguments, disabling conditions, map sources, plus enclosing preflights) is computed by TLC from MroSem; every producer in turn is held back while everything else runs; PsTrace (TLC) requires at every StageBegin that all dependencies' last jobs have ended ok and split < chunks < join.",
      "ref": "DESIGN.md 5 C02", "note": _RT_NOTE},
+    {"id": "C06", "engine": "tlc+psrun+vh",
+     "technique": "fault enumeration on real runs chosen from the TLA+ job table; restart with the fault removed; TLC trace monitors",
+     "text": "For jobs of every program (table from MroSem) each failure manifestation the stage code can produce (_errors, _assert, truncated _outs, missing key, wrong JSON type, malformed _stage_defs) is injected under seeded schedules; PsTrace (TLC) requires: the incarnation ends failed and names the failing stage, no job depending on the failed call starts; after mrp's exit a fresh runtime re-attaches with the fault removed and must complete with the reference outputs without re-executing recorded work.",
+     "ref": "DESIGN.md 5 C06", "note": _RT_NOTE + "; exit-code-only and signal deaths need real processes (process driver)"},
     {"id": "C03", "engine": "tlc+psrun+vh",
      "technique": "expected job set from TLA+ semantics; execution counting on real runs; TLC trace monitors",
      "text": "ExpectedJobs = MroSem.Invocations(p) (forks per element/key, chunks as returned by split, nothing for disabled or empty/null mapped calls); PsTrace (TLC) flags any job executed twice, any job not in the table, any expected job never executed and any run that stalls.",
